@@ -258,7 +258,7 @@ func runCheck(id, tier string, verbose bool, only string, workers int, noval boo
 			fmt.Printf("[%s] %s: paths=%d ends=%v assertsOK=%d violations=%d queries=%d wall=%.1fs\n", id, h.Fn, r.Paths, r.Ends, r.AssertsOK, len(r.Violations), r.Queries, r.Wall)
 		}
 		for k, tr := range r.EndMsgs {
-			if strings.HasPrefix(k, "UNSUPPORTED") || strings.HasPrefix(k, "UNWIND") || strings.HasPrefix(k, "DEADLOCK") || verbose {
+			if strings.HasPrefix(k, "UNSUPPORTED") || strings.HasPrefix(k, "UNWIND") || strings.HasPrefix(k, "DEADLOCK") || strings.HasPrefix(k, "PANIC") || verbose {
 				fmt.Printf("    %s  decisions=%s\n", trunc(k, 600), trunc(tr, 120))
 			}
 		}
